@@ -46,7 +46,7 @@ type posInput struct {
 	Query   string   `json:"query,omitempty"`
 }
 
-var c04Seps = []string{"\n", "\r", "\r\n", ",", "\t", "\xef\xbb\xbf", "#c\n", "#é😀\r", " \n ", "\n\n", "\"\"\"\nd\n\"\"\" "}
+var c04Seps = []string{"\n", "\r", "\r\n", ",", "\t", "\xef\xbb\xbf", "#c\n", "#é😀\r", " \n ", "\n\n", "\"\"\"\né😀é\n\"\"\" ", "\"\"\"\nd\n\"\"\" "}
 
 // posCase parses/loads/validates the given sources and checks every position and every
 // error location that comes back.
